@@ -110,6 +110,30 @@ Theorem C16_end_marker : forall (lineMode : bool) (s : list N),
               next_token lineMode s p = (mkLtok (end_type lineMode) [] p (S p) false false, S p).
 Proof. exact lex_all_end_marker. Qed.
 
+(* The real API has no fuel: NextToken is simply called again and again. [nth_call m s k] is the token returned
+   by call number k (from 0) of a fresh lexer, whatever the earlier calls returned. The stream of results is exactly
+   lex_all followed by the end marker for ever: "reaches the end marker after at most n+1 tokens and keeps
+   returning it", stated on the unbounded call sequence. *)
+Theorem C16_token_stream : forall (lineMode : bool) (s : list N),
+  (forall k, (k < length (lex_all lineMode s))%nat ->
+             nth_error (lex_all lineMode s) k = Some (nth_call lineMode s k)) /\
+  (forall k, (length (lex_all lineMode s) - 1 <= k)%nat ->
+             lt_type (nth_call lineMode s k) = end_type lineMode /\ lt_lit (nth_call lineMode s k) = []) /\
+  (forall k, (length s < k)%nat -> lt_type (nth_call lineMode s k) = end_type lineMode).
+Proof. exact token_stream. Qed.
+
+(* the fuel inside lex_all is immaterial: any fuel above |s| - pos gives the same token list *)
+Theorem C16_fuel_irrelevant : forall (f1 f2 : nat) (lineMode : bool) (s : list N) (pos : nat),
+  (length s - pos < f1)%nat -> (length s - pos < f2)%nat ->
+  lex_from f1 lineMode s pos = lex_from f2 lineMode s pos.
+Proof. exact lex_from_fuel. Qed.
+
+(* HadWhitespace / HadNewline (read by the parser after every NextToken): the first flag tells exactly whether
+   the token is separated from the previous one (from position 0 for the first), the second whether a newline
+   byte lies in that gap *)
+Theorem C16_flags : forall (lineMode : bool) (s : list N), flags_chain s 0 (lex_all lineMode s).
+Proof. exact lex_all_flags. Qed.
+
 (* keywords never lex as identifiers *)
 Theorem C16_keywords_not_idents : forall (lineMode : bool) (s : list N) (t : ltok),
   In t (lex_all lineMode s) -> lt_type t = token_IDENT -> forall ty, ~ In (lt_lit t, ty) keyword_tokens.
@@ -129,6 +153,18 @@ Theorem C16_intern_functional_injective : forall (h : list tkey),
     nth_error ids a = Some ia -> nth_error ids b = Some ib ->
     (ia = ib <-> ka = kb).
 Proof. exact intern_after_init. Qed.
+
+(* "Equal tokens are represented by one shared object", on the tokens the lexer actually delivers: a process (after
+   token.Init) lexes any list h of inputs, each in its own mode; [lex_history] pairs every token with its object -
+   the interning table's object for value tokens (ILLEGAL IDENT INT FLOAT STRING comments), the one object made by
+   Init for each constant type (operators, keywords, EOF, EOL).  Two tokens received at any two points of the
+   history are the same object iff they have the same type and literal. *)
+Theorem C16_equal_tokens_share_object : forall (h : list (bool * list N)),
+  let os := fst (lex_history i_init h) in
+  forall a b ta oa tb ob,
+    nth_error os a = Some (ta, oa) -> nth_error os b = Some (tb, ob) ->
+    (oa = ob <-> (lt_type ta = lt_type tb /\ lt_lit ta = lt_lit tb)).
+Proof. exact lex_history_objects. Qed.
 
 (* ---- non-vacuity / sanity: the historical failing inputs and one token of every kind *)
 Definition show (t : ltok) := (lt_type t, lt_lit t, N.of_nat (lt_start t), N.of_nat (lt_end t)).
@@ -173,10 +209,23 @@ Example C16_ex_unterminated :
   /\ map show (lex_all false [120; 120]) = [(token_IDENT, [120; 120], 0, 2); (token_EOF, [], 2, 3)].
 Proof. vm_compute. repeat split; reflexivity. Qed.
 
+(* the call stream after the end: calls 3, 4, 40 on "a b" keep returning EOF; flags of `a \n b` *)
+Example C16_ex_stream_flags :
+  map (fun k => lt_type (nth_call false [97; 32; 98] k)) [0; 1; 2; 3; 40]%nat
+    = [token_IDENT; token_IDENT; token_EOF; token_EOF; token_EOF]
+  /\ map (fun t => (lt_ws t, lt_nl t)) (lex_all true [97; 32; 10; 98]) = [(false, false); (true, true); (false, false)].
+Proof. vm_compute. split; reflexivity. Qed.
+
 (* interning: same key twice gives the same object, different keys different objects; a keyword is already there *)
 Example C16_ex_intern :
   fst (intern_all i_init [(token_IDENT, [120]); (token_INT, [49]); (token_IDENT, [120]); (token_IF, [105; 102])])
   = [34; 35; 34; 3]%nat.
+Proof. vm_compute. reflexivity. Qed.
+
+(* "x = x" in file mode then "x" in line mode: the three x are one object, the two ends are different objects *)
+Example C16_ex_objects :
+  map snd (fst (lex_history i_init [(false, [120; 61; 120]); (true, [120])]))
+  = [OValue 34; OConst token_ASSIGN; OValue 34; OConst token_EOF; OValue 34; OConst token_EOL]%nat.
 Proof. vm_compute. reflexivity. Qed.
 
 Print Assumptions C16_tiling.
@@ -188,6 +237,10 @@ Print Assumptions C16_line_comment_span.
 Print Assumptions C16_block_comment_span.
 Print Assumptions C16_illegal_span.
 Print Assumptions C16_end_marker.
+Print Assumptions C16_token_stream.
+Print Assumptions C16_fuel_irrelevant.
+Print Assumptions C16_flags.
 Print Assumptions C16_keywords_not_idents.
 Print Assumptions C16_no_abnormal_token.
 Print Assumptions C16_intern_functional_injective.
+Print Assumptions C16_equal_tokens_share_object.
